@@ -11,10 +11,21 @@
 //!                                               at term offset o is tab[(o / 32 + salt) mod ntab] (1 Abort 2 Break 3 Commit 4 Continue)
 //!            3 block blimit                     Subscription::block_poll
 //!            4 grow slot j | 5 add slot | 6 remove slot
+//!            7 roll slot vis claim nframes { <typ> <flags> <flen> <k> <dtid> }*
+//!                 the publisher continues in the next term: when the slot's subscriber position is the start of term n + 1
+//!                 (its term n consumed to the end) the slot's segment becomes (n + 1, offset 0, vis, claim, frames), written
+//!                 into the (cleaned) next partition; otherwise nothing happens
 //! observation: one entry per op:
 //!   (ret, [raw fragments (offset, length, flags, Ok (header.position()), session, payload hash)],
 //!    [messages given to the delegate (session, length, hash)], [subscriber position of every slot])
 //!   block_poll's blocks are listed as raw fragments (offset, length, -1, Ok (term id), session, 0)
+//!
+//! case line `bb <initial_length> <nops> { 1 <k> <len> | 2 | 3 <limit> }*` : one BufferBuilder::new(initial_length), then
+//!   1 append(len bytes of payload k) | 2 reset | 3 set_limit(limit)
+//!   observation: [(Ok (0), limit, capacity, hash of bytes [32, limit)) after new; (result, limit, capacity, hash) per op]
+//!   (the capacity is read off the error of set_limit(i32::MAX), which never succeeds)
+//! case line `find <capacity> <required>` : BufferBuilder::find_suitable_capacity through the hook of hooks/sub.diff
+//!   observation: Ok (c) | Err IllegalState | Panic   (`Skip` when the repository does not carry the hook)
 #[path = "../../c05/src/imglog.rs"]
 mod imglog;
 
@@ -175,6 +186,28 @@ fn case_sub(a: &[i64]) -> String {
                 }
                 ret = "Ok (0)".to_string();
             },
+            7 => {
+                let si = next() as usize;
+                let vis = next() as usize;
+                let claim = next() != 0;
+                let nf = next() as usize;
+                let mut frames = Vec::new();
+                for _ in 0..nf {
+                    frames.push(FrameSpec { typ: next(), flags: next(), flen: next(), k: next(), dtid: next() });
+                }
+                let pos = rig.counter(3 + si as i32).get();
+                let s = &mut slots[si];
+                if pos == (s.seg.n + 1) << s.bits {
+                    s.seg = Seg { n: s.seg.n + 1, off: 0, vis, claim, frames };
+                    if let Some(image) = &s.image {
+                        let tl: i32 = 1 << s.bits;
+                        let part = (s.seg.n.rem_euclid(3)) as Index;
+                        image.log_buffers().atomic_buffer(part).set_memory(0, tl, 0);
+                        sync_seg(image, tl, s.init, s.session, &s.seg, 0);
+                    }
+                }
+                ret = "Ok (0)".to_string();
+            },
             other => panic!("unknown case kind opcode {}", other),
         }
         let positions: Vec<i64> = (0..nslots).map(|si| rig.counter(3 + si as i32).get()).collect();
@@ -187,12 +220,89 @@ fn case_sub(a: &[i64]) -> String {
     format!("[{}]", out.join("; "))
 }
 
+fn bb_state(b: &mut aeron_rs::buffer_builder::BufferBuilder, ret: &str) -> String {
+    use aeron_rs::utils::errors::{AeronError, IllegalArgumentError};
+    let limit = b.limit();
+    let cap = match b.set_limit(i32::MAX) {
+        Err(AeronError::IllegalArgument(IllegalArgumentError::LimitOutsideRange { capacity, .. })) => capacity as i64,
+        _ => -1,
+    };
+    let hash = if limit > 32 {
+        let bytes = unsafe { std::slice::from_raw_parts(b.buffer().offset(32) as *const u8, (limit - 32) as usize) };
+        let mut h: i64 = 7;
+        for x in bytes {
+            h = (h * 31 + *x as i64 + 1) % 1_000_003;
+        }
+        h
+    } else {
+        7
+    };
+    format!("({}, {}, {}, {})", ret, limit, cap, hash)
+}
+
+fn case_bb(a: &[i64]) -> String {
+    use aeron_rs::buffer_builder::BufferBuilder;
+    let initial = a[0] as isize;
+    let nops = a[1] as usize;
+    let mut b = match catch(|| BufferBuilder::new(initial)) {
+        Ok(b) => b,
+        Err(()) => return "[(Panic, 0, 0, 0)]".to_string(),
+    };
+    let header = Header::new(0, 65536);
+    let mut out = vec![bb_state(&mut b, "Ok (0)")];
+    let mut i = 2usize;
+    for _ in 0..nops {
+        let ret: String;
+        match a[i] {
+            1 => {
+                let k = a[i + 1];
+                let len = a[i + 2];
+                i += 3;
+                let mut bytes = vcommon::payload(k, len.max(0) as usize);
+                if bytes.is_empty() {
+                    bytes.push(0);
+                }
+                let src = AtomicBuffer::wrap_slice(&mut bytes);
+                let r = catch(|| b.append(&src, 0, len as Index, &header).map(|_| 0));
+                ret = vcommon::fmt_result(r);
+            },
+            2 => {
+                i += 1;
+                b.reset();
+                ret = "Ok (0)".to_string();
+            },
+            3 => {
+                let l = a[i + 1];
+                i += 2;
+                let r = catch(|| b.set_limit(l as Index).map(|_| 0));
+                ret = vcommon::fmt_result(r);
+            },
+            other => panic!("unknown case kind bb op {}", other),
+        }
+        out.push(bb_state(&mut b, &ret));
+    }
+    format!("[{}]", out.join("; "))
+}
+
+#[cfg(verif_bbhook)]
+fn case_find(a: &[i64]) -> String {
+    let r = catch(|| aeron_rs::buffer_builder::BufferBuilder::find_suitable_capacity_for_verif(a[0] as Index, a[1] as Index));
+    vcommon::fmt_result(r)
+}
+
+#[cfg(not(verif_bbhook))]
+fn case_find(_a: &[i64]) -> String {
+    "Skip".to_string()
+}
+
 fn main() {
     vcommon::run_lines(|line| {
         let parts: Vec<&str> = line.split_whitespace().collect();
         let a = vcommon::ints(&parts[1..]);
         match parts[0] {
             "sub" => case_sub(&a),
+            "bb" => case_bb(&a),
+            "find" => case_find(&a),
             other => panic!("unknown case kind {}", other),
         }
     });
